@@ -313,7 +313,8 @@ def extra_lines(sa, pa, sb):
 
 def deleted_later_only(sc, c, commits, pa, pb):
     """True when the only difference between the projected views is: the shortcut's note lists added lines (same file, same session) that
-    the replay's note omits, and the content of every such line is gone from the last commit of the rewritten range."""
+    the replay's note omits, and every such line is gone from the last commit of the rewritten range (deleted, or changed in its line
+    terminator: finding D16, second face - the replay works backwards from the state of the last commit)."""
     try:
         fa, ha, ba = pa
         fb, hb, bb = pb
@@ -337,8 +338,20 @@ def deleted_later_only(sc, c, commits, pa, pb):
                 continue
             here = sc.show_lines(c, f) or []
             end = {key(l) for l in (sc.show_lines(last, f) or [])}
+
+            def raw(commit):
+                p = sc.w.ogit("cat-file", "blob", "%s:%s" % (commit, f), raw=True)
+                return p.out.decode("utf-8", "replace").splitlines(keepends=True) if p.rc == 0 else []
+            here_raw, end_raw = raw(c), set(raw(last))
             for i in extra:
-                if not (1 <= i <= len(here)) or key(here[i - 1]) in end:
+                if not (1 <= i <= len(here)):
+                    return False
+                if key(here[i - 1]) in end:
+                    # still there by content - but changed later in the range in its line terminator (the last line of a file without
+                    # a final newline gets one when a later commit of the range appends): the backwards replay does not find it either
+                    if i <= len(here_raw) and here_raw[i - 1] not in end_raw:
+                        sc.stats["projected_difference_tolerated_D16(line terminator changed later in the range)"] += 1
+                        continue
                     return False
             found = True
     return found
